@@ -365,8 +365,12 @@ static void drop_locs(uint64_t o, size_t n) {
 	}
 }
 
+static uint64_t g_watch = ~0ull; static bool g_watch_init = false;
 static void race_access(const void *addr, size_t n, bool write, bool atomic) {
 	Run &r = *R;
+	if (!g_watch_init) { g_watch_init = true; if (const char *w = getenv("SIM_WATCH")) g_watch = strtoull(w, nullptr, 0); }
+	if (g_watch != ~0ull && off(addr) <= g_watch && g_watch < off(addr) + n)
+		fprintf(stderr, "watch: step %llu task %d op %d(kind %d) %s%s +0x%llx n=%zu clk=%u\n", (unsigned long long)r.steps, r.cur, r.tasks[r.cur].opid, r.tasks[r.cur].opkind, atomic ? "atomic " : "", write ? "WRITE" : "read", (unsigned long long)off(addr), n, r.tasks[r.cur].clk.c[r.cur]);
 	int me = r.cur;
 	Task &t = r.tasks[me];
 	uint64_t o = off(addr);
